@@ -3,7 +3,9 @@ package checks
 import (
 	"context"
 	"fmt"
+	"github.com/IBM/TSS/threshold"
 	"os"
+	"sync"
 	"testing"
 	"time"
 
@@ -21,7 +23,7 @@ import (
 // events is executed on one cluster; a model says which attempts must succeed.
 
 type c12Op struct {
-	Kind  int // 9 sign cancelled while the signer of one node is still being prepared, 10 keygen with two extra KeyGen calls on one node while it runs; 0 keygen complete, 1 keygen one missing, 2 sign complete, 3 sign one missing, 4 sign cancelled midway, 5 two signs on different topics concurrently, 6 second sign on the same topic while the first runs, 7 replay recorded frames, 8 foreign frames (configured outsider / unknown node), 11 sign complete / 15 sign in which one signer is cut off after the first barrier (fails at the second) followed by a replay of the dead session's synchroniser frames, 13 keygen / 14 sign in which one node's context ends inside the factory / Init / SetShareData / run entry of its protocol instance, 12 keygen complete while copies of the session's own live frames arrive under the source of the configured member that is not a participant (and of an unknown node)
+	Kind  int // 9 sign cancelled while the signer of one node is still being prepared, 10 keygen with two extra KeyGen calls on one node while it runs; 0 keygen complete, 1 keygen one missing, 2 sign complete, 3 sign one missing, 4 sign cancelled midway, 5 two signs on different topics concurrently, 6 second sign on the same topic while the first runs, 7 replay recorded frames, 8 foreign frames (configured outsider / unknown node), 11 sign complete / 16 sign / 17 keygen twice in a row on one topic while one node's callback goroutine of the first attempt is held after it pushed its result, 15 sign in which one signer is cut off after the first barrier (fails at the second) followed by a replay of the dead session's synchroniser frames, 13 keygen / 14 sign in which one node's context ends inside the factory / Init / SetShareData / run entry of its protocol instance, 12 keygen complete while copies of the session's own live frames arrive under the source of the configured member that is not a participant (and of an unknown node)
 	Topic int
 	Who   int // missing party / cancelling party / duplicate caller (index)
 	At    int // deliveries before the cancellation / before the duplicate call
@@ -44,7 +46,7 @@ func genC12(t *rapid.T) c12Case {
 	n := rapid.IntRange(2, 8).Draw(t, "nops")
 	for i := 0; i < n; i++ {
 		c.Ops = append(c.Ops, c12Op{
-			Kind:  rapid.SampledFrom([]int{0, 1, 2, 2, 2, 3, 3, 4, 4, 5, 6, 7, 7, 8, 9, 9, 10, 11, 11, 12, 13, 13, 14, 15, 15}).Draw(t, "kind"),
+			Kind:  rapid.SampledFrom([]int{0, 1, 2, 2, 2, 3, 3, 4, 4, 5, 6, 7, 7, 8, 9, 9, 10, 11, 11, 12, 13, 13, 14, 15, 15, 16, 16, 17}).Draw(t, "kind"),
 			Topic: rapid.IntRange(0, 1).Draw(t, "topic"),
 			Who:   rapid.IntRange(0, 3).Draw(t, "who"),
 			At:    rapid.IntRange(0, 40).Draw(t, "at"),
@@ -61,6 +63,7 @@ type c12Info struct {
 	Overlaps      int
 	LateDelivered int
 	Foreign       int
+	HeldCallbacks int
 	LiveForeign   int // copies of live session frames under a non-participant's source, delivered while the session runs
 	StartAllFirst int // silent-mode repeats where the generator switch of known finding L20 was applied
 }
@@ -577,6 +580,83 @@ func runC12(c c12Case) *vh.Outcome {
 					return
 				}
 				usedTopics[key] = "failed"
+			case 16, 17: // a complete Sign (16) / KeyGen (17) in which ONE node's callback goroutine is held right after it has pushed its
+				// result (verif yield point), so the API call returns while that goroutine still has its clean-up ahead; the next
+				// complete attempt on the same topic starts, and only then the held goroutine carries on
+				isKG := op.Kind == 17
+				key, opName, point := topic, "sign", "Sign:callback:result-pushed"
+				if isKG {
+					key, opName, point = "DKG", "keygen", "KeyGen:callback:result-pushed"
+				}
+				var hookMu sync.Mutex
+				armed, released := true, false
+				release := make(chan struct{})
+				threshold.VerifYield = func(p string) {
+					if p != point {
+						return
+					}
+					hookMu.Lock()
+					if !armed {
+						hookMu.Unlock()
+						return
+					}
+					armed = false
+					hookMu.Unlock()
+					info.HeldCallbacks++
+					<-release
+				}
+				letGo := func() {
+					hookMu.Lock()
+					armed = false
+					if !released {
+						released = true
+						close(release)
+					}
+					hookMu.Unlock()
+				}
+				for attempt := 0; attempt < 2; attempt++ {
+					_, used := usedTopics[key]
+					saf := false
+					if c.Silent && used && avoidL20 {
+						saf = true
+						info.StartAllFirst++
+					}
+					ctxs, cns := ctxFor(parts)
+					calls := mkCalls(opName, key, parts, ctxs)
+					info.Attempts = append(info.Attempts, fmt.Sprintf("%s %s, attempt %d around a held callback", opName, key, attempt+1))
+					var hook func(d *sim.Driver)
+					if attempt == 1 {
+						info.Retries++
+						at := 2 + (op.At*3)%120
+						hook = func(d *sim.Driver) {
+							if d.Steps >= at {
+								letGo()
+							}
+						}
+					}
+					ok := runAttempt(calls, saf, hook)
+					if attempt == 1 {
+						letGo()
+					}
+					for _, cn := range cns {
+						cn()
+					}
+					if !ok {
+						letGo()
+						threshold.VerifYield = nil
+						return
+					}
+					if !expectAllOK(opName+"-around-held-callback", calls, key, attempt == 1) {
+						letGo()
+						threshold.VerifYield = nil
+						return
+					}
+					usedTopics[key] = "ok"
+				}
+				threshold.VerifYield = nil
+				if !drain() {
+					return
+				}
 			case 7: // replay recorded frames of earlier sessions (late / duplicated traffic)
 				if len(recorded) == 0 {
 					continue
